@@ -170,7 +170,7 @@ class SubChannel:
 
     @m.output()
     def signal_dataReceived(self, data):
-        assert self._protocol
+        assert self._protocol is not None
         self._protocol.dataReceived(data)
 
     @m.output()
@@ -183,7 +183,7 @@ class SubChannel:
 
     @m.output()
     def signal_connectionLost(self):
-        assert self._protocol
+        assert self._protocol is not None
         self._protocol.connectionLost(ConnectionDone())
 
     @m.output()
@@ -250,7 +250,7 @@ class SubChannel:
     # our endpoints use these
 
     def _set_protocol(self, protocol):
-        assert not self._protocol
+        assert self._protocol is None
         self._protocol = protocol
         if IHalfCloseableProtocol.providedBy(protocol):
             self.connect_protocol_half()
